@@ -1,1 +1,50 @@
-import RosedVerif.Spec.Layout
+/-
+C13 — Align pads every line to the exact width on the correct side.   (layer B: one token per cluster)
+Per-line statements for the specification functions; the editor-level statement (line count
+unchanged) is `Spec.apply` over the lines (C10).  The cluster-level functions are tied to the real
+code on stable vocabularies by the oracle of ./check C13.
+-/
+import RosedVerif.Spec.AlignLemmas
+namespace RosedVerif.Props
+open RosedVerif.Spec
+variable {α : Type} (tk : Toks α)
+
+/-- Left: leading whitespace stripped (exactly the maximal whitespace prefix), padded on the right only -/
+theorem C13_left_shape (w : Int) (l : List α) :
+    (∃ n, alignLeft tk w l = stripLeft tk l ++ List.replicate n tk.sp) ∧
+    (∃ p, l = p ++ stripLeft tk l ∧ (∀ c ∈ p, tk.ws c = true) ∧
+      (∀ c, (stripLeft tk l).head? = some c → tk.ws c = false)) :=
+  ⟨alignLeft_shape tk w l, stripLeft_spec tk l⟩
+
+/-- … exactly w clusters wide when the kept text is at most w; longer lines keep their text -/
+theorem C13_left_width (w : Int) (l : List α) (h : ((stripLeft tk l).length : Int) ≤ w) :
+    ((alignLeft tk w l).length : Int) = w := alignLeft_length tk w l h
+theorem C13_left_long (w : Int) (l : List α) (h : w ≤ (stripLeft tk l).length) :
+    alignLeft tk w l = stripLeft tk l := alignLeft_long tk w l h
+
+/-- Right: trailing whitespace stripped, padded on the left only -/
+theorem C13_right_shape (w : Int) (l : List α) :
+    (∃ n, alignRight tk w l = List.replicate n tk.sp ++ stripRight tk l) ∧
+    (∃ q, l = stripRight tk l ++ q ∧ (∀ c ∈ q, tk.ws c = true) ∧
+      (∀ c, (stripRight tk l).getLast? = some c → tk.ws c = false)) :=
+  ⟨alignRight_shape tk w l, stripRight_spec tk l⟩
+theorem C13_right_width (w : Int) (l : List α) (h : ((stripRight tk l).length : Int) ≤ w) :
+    ((alignRight tk w l).length : Int) = w := alignRight_length tk w l h
+theorem C13_right_long (w : Int) (l : List α) (h : w ≤ (stripRight tk l).length) :
+    alignRight tk w l = stripRight tk l := alignRight_long tk w l h
+
+/-- Center: both sides stripped, padded on both sides with the left pad equal to or one more than the right -/
+theorem C13_center_shape (w : Int) (l : List α) :
+    ∃ a b, alignCenter tk w l =
+        List.replicate a tk.sp ++ stripRight tk (stripLeft tk l) ++ List.replicate b tk.sp ∧
+      (a = b ∨ a = b + 1) := alignCenter_shape tk w l
+theorem C13_center_width (w : Int) (l : List α) (h : ((stripRight tk (stripLeft tk l)).length : Int) ≤ w) :
+    ((alignCenter tk w l).length : Int) = w := alignCenter_length tk w l h
+theorem C13_center_long (w : Int) (l : List α) (h : w ≤ (stripRight tk (stripLeft tk l)).length) :
+    alignCenter tk w l = stripRight tk (stripLeft tk l) := alignCenter_long tk w l h
+
+/-! non-vacuity: widths ≤ 0, whitespace-only line, odd padding -/
+example : alignCenter ⟨(· == 0), 0, 99⟩ 6 [0, 1, 2, 3, 0] = [0, 0, 1, 2, 3, 0] := by decide
+example : alignLeft ⟨(· == 0), 0, 99⟩ (-2) [0, 0] = [] := by decide
+
+end RosedVerif.Props
